@@ -14,14 +14,14 @@ Firewall tables, deny lists, which subnets are public and req_access are symboli
 import z3
 
 from .. import symex as sx
-from .. import dyn
+from .. import dyn, loaded, loaderh
 from ..scen import public
 from . import common
 
 ID = "C02"
 TECHNIQUE = "symbolic execution of the real Network.perform_action/traffic_permitted/has_required_remote_permission by z3 proxy values against the declarative step relation; counterexample replay"
 needs_reach = True
-EXTRA_STUBS = dyn.EXTRA_STUBS
+EXTRA_STUBS = dyn.EXTRA_STUBS + loaderh.EXTRA_STUBS
 REQUIRED_WITNESSES = ['success_exploit', 'success_service_scan', 'failure', 'flag_conn', 'flag_perm']
 STUBS, ASSUMPTIONS, BOUNDS = common.STUBS, common.ASSUMPTIONS, common.BOUNDS
 describe = common.describe
@@ -29,13 +29,16 @@ prefer = common.prefer
 
 
 def queries(tier, seed=0):
-    return [q for q in dyn.base_queries(tier, level='net') if q['kind'] != 'noop']
+    return [q for q in dyn.base_queries(tier, level='net') if q['kind'] != 'noop'] + loaded.queries()
 
 
-run = dyn.run
+def run(src, q):
+    return loaded.run(src, q) if q.get('loaded') else dyn.run(src, q)
 
 
 def obligations(r):
+    if r.q.get('loaded'):
+        return loaded.obligations(r)[:2]
     w, A, st, post, step = r.w, r.A, r.st, r.post, r.step
     succ = r.res['success']
     t = A.target
